@@ -139,6 +139,7 @@ func checkC07(cx *Ctx, r *Report) {
 			r.Fail("R-STRICT", dk, "", "anchor not found")
 			continue
 		}
+		fn = throughDelegation(fn) // DecodeX(...) { return decodeInto[X](...) }
 		aps, ok := fx.atomPaths(fn, 1024)
 		if !ok {
 			r.Undecided("R-STRICT", dk, w.FnPos(fn), "too many paths")
